@@ -89,6 +89,19 @@ def quote(s):
         'Only use quote() with names or IDs in Stone.'
     return "'%s'" % s
 
+def already_defined_error(name, existing, lineno, path):
+    """
+    Returns the InvalidSpec for a symbol that is defined twice. The location of the
+    first definition is included if it has one: built-in types and imported
+    namespaces do not.
+    """
+    ast_node = getattr(existing, '_ast_node', None)
+    if ast_node is not None and ast_node.lineno is not None:
+        where = ' (%s:%d)' % (ast_node.path, ast_node.lineno)
+    else:
+        where = ''
+    return InvalidSpec('Symbol %s already defined%s.' % (quote(name), where), lineno, path)
+
 def parse_data_types_from_doc_ref(api, doc, namespace_context, ignore_missing_entries=False):
     """
     Given a documentation string, parse it and return all references to other
@@ -456,11 +469,7 @@ class IRGenerator:
         # namespace is split across multiple files, the order they're specified
         # in the command line which affects alias ordering is irrelevant.
         if item.name in env:
-            existing_dt = env[item.name]
-            raise InvalidSpec(
-                'Symbol %s already defined (%s:%d).' %
-                (quote(item.name), existing_dt._ast_node.path,
-                existing_dt._ast_node.lineno), item.lineno, item.path)
+            raise already_defined_error(item.name, env[item.name], item.lineno, item.path)
 
         namespace = self.api.ensure_namespace(env.namespace_name)
         alias = Alias(item.name, namespace, item)
@@ -470,11 +479,7 @@ class IRGenerator:
 
     def _create_annotation(self, env, item):
         if item.name in env:
-            existing_dt = env[item.name]
-            raise InvalidSpec(
-                'Symbol %s already defined (%s:%d).' %
-                (quote(item.name), existing_dt._ast_node.path,
-                existing_dt._ast_node.lineno), item.lineno, item.path)
+            raise already_defined_error(item.name, env[item.name], item.lineno, item.path)
 
         namespace = self.api.ensure_namespace(env.namespace_name)
 
@@ -503,11 +508,7 @@ class IRGenerator:
 
     def _create_annotation_type(self, env, item):
         if item.name in env:
-            existing_dt = env[item.name]
-            raise InvalidSpec(
-                'Symbol %s already defined (%s:%d).' %
-                (quote(item.name), existing_dt._ast_node.path,
-                existing_dt._ast_node.lineno), item.lineno, item.path)
+            raise already_defined_error(item.name, env[item.name], item.lineno, item.path)
 
         namespace = self.api.ensure_namespace(env.namespace_name)
 
@@ -550,11 +551,7 @@ class IRGenerator:
     def _create_type(self, env, item):
         """Create a forward reference for a union or struct."""
         if item.name in env:
-            existing_dt = env[item.name]
-            raise InvalidSpec(
-                'Symbol %s already defined (%s:%d).' %
-                (quote(item.name), existing_dt._ast_node.path,
-                 existing_dt._ast_node.lineno), item.lineno, item.path)
+            raise already_defined_error(item.name, env[item.name], item.lineno, item.path)
         namespace = self.api.ensure_namespace(env.namespace_name)
         if isinstance(item, AstStructDef):
             try:
@@ -1306,12 +1303,7 @@ class IRGenerator:
                             existing_dt._ast_node.lineno),
                         item.lineno, item.path)
             else:
-                existing_dt = env[item.name]
-                raise InvalidSpec(
-                    'Symbol %s already defined (%s:%d).' % (
-                        quote(item.name), existing_dt._ast_node.path,
-                        existing_dt._ast_node.lineno),
-                    item.lineno, item.path)
+                raise already_defined_error(item.name, env[item.name], item.lineno, item.path)
         else:
             env[item.name] = ApiRoutesByVersion()
 
